@@ -280,14 +280,14 @@ PROPS = {
     "C06": dict(tags={"BUILD", "OVL", "FIND", "NOS", "LEFT", "OVLI", "FINDI", "NOSI", "ROVL", "RFIND", "RNOS", "RLEFT",
                       "ROVLI", "RFINDI", "RNOSI", "RT"}, oracle=o_c06),
     "C07": dict(tags={"BUILD", "IMG", "TABLE", "OVL", "FIND", "NOS", "LEFT", "OVLI", "FINDI", "NOSI", "ROVL", "RFIND",
-                      "RNOS", "RLEFT", "RT", "KINDCHK"}, oracle=o_c07, profiles=("debug", "release")),
+                      "RNOS", "RLEFT", "RT", "KINDCHK", "KINDCHKI"}, oracle=o_c07, profiles=("debug", "release")),
     "C08": dict(tags={"BUILD", "TABLE", "OVL", "FIND", "NOS", "LEFT"}, oracle=o_c08, group=g_c08),
     "C09": dict(tags={"BUILD", "IMG", "RT", "ROVL", "RFIND", "RNOS", "RLEFT", "ROVLI", "RFINDI", "RNOSI", "OVL", "FIND",
                       "NOS", "LEFT"}, oracle=o_c09),
     "C10": dict(tags={"BUILD"}, oracle=o_c10, profiles=("debug", "release")),
     "C11": dict(tags={"BUILD", "IMG", "STATS", "TABLE", "OVL", "FIND", "NOS", "LEFT"}, oracle=o_c11, group=g_c11),
     "C12": dict(tags={"BUILD", "OVL", "FIND", "NOS", "OVLI", "FINDI", "NOSI"}, oracle=o_c12),
-    "C13": dict(tags={"BUILD", "TABLE", "TICKS", "RTICKS"}, oracle=o_c13),
+    "C13": dict(tags={"BUILD", "TABLE", "TICKS", "RTICKS", "KINDCHK", "KINDCHKI"}, oracle=o_c13),
     "C14": dict(tags={"BUILD", "IMG", "DET", "THREADS"}, oracle=o_c14, group=g_c14),
     "C15": dict(tags={"BUILD", "STATS", "TABLE"}, oracle=o_c15),
 }
